@@ -12,7 +12,7 @@ from models.m_core import bytes_eq
 ID = 'C06'
 PROGRAMS = {'core': dict(crate='vaporetto', features=['train', 'kytea'])}
 UNIT_CAP = 150
-BUDGET_S = {'quick': 280, 'thorough': 2400}
+BUDGET_S = {'quick': 600, 'thorough': 1200}      # wall-clock safety caps (exceeding one is reported as inconclusive); typical quick runs take 1-200 s
 
 SHAPES = {
     't1-basic': {'cw': 2, 'tw': 2, 'char': ['a'],
@@ -142,7 +142,8 @@ def make(e, progs, job):
         o = S.observe(e, prog, cell, writers=True, tokens=True)
         L = [e.concretize(l) for l in labels]
         ncat = max([len(tm['cands']) for tm in ms.tag_models] + [0])
-        e.check(o.n_tags.conc() == ncat, 'tag count equals the largest number of categories')
+        # the property needs a slot for every category of every tag model; it does not fix the tag count beyond that (surplus slots must stay absent, checked below)
+        e.check(o.n_tags.conc() >= ncat, 'tag count covers every category')
         nt = o.n_tags.conc()
         e.check(len(o.tags) == n * nt, 'characters x tag-count tag slots')
         if len(o.tags) != n * nt:
